@@ -20,12 +20,15 @@ ValMatches(o, r) ==
               /\ { <<o.dl[k].a, o.dl[k].t, o.dl[k].s>> : k \in DOMAIN o.dl }
                    = { <<a, r.dl[a].t, r.dl[a].s>> : a \in { b \in Accts : r.dl[b].t > 0 \/ r.dl[b].s > 0 } }
 
+SideMatches(o, V, S, IX, A) ==
+   /\ \A v \in Vals : ValMatches(o.v[v], V[v])
+   /\ \A g \in Groups : o.st[g] = S[g]
+   /\ RangeOf(o.ix) = IX
+   /\ \A a \in Accts : o.a[a].dbal = A[a].dbal /\ RangeOf(o.a[a].to) = A[a].to
 Matches(e) ==
-   LET o == e.obs IN
-   /\ \A v \in Vals : ValMatches(o.v[v], vo'[v])
-   /\ \A g \in Groups : o.st[g] = stat'[g]
-   /\ RangeOf(o.ix) = index'
-   /\ \A a \in Accts : o.a[a].dbal = acct'[a].dbal /\ RangeOf(o.a[a].to) = acct'[a].to
+   /\ SideMatches(e.obs, vo', stat', index', acct')
+   \* the other side of the last Copy, when the driver holds one
+   /\ ("oobs" \in DOMAIN e) => (hasOth' /\ SideMatches(e.oobs, oth'.vo, oth'.stat, oth'.index, oth'.acct))
 
 IsEvent(name) == l <= Len(TraceLog) /\ TraceLog[l].ev = name /\ l' = l + 1
 
@@ -33,6 +36,9 @@ TReset == /\ (IsEvent("reset") \/ IsEvent("abort"))
           /\ vo' = [v \in Vals |-> NoVal] /\ stat' = ZeroStat /\ index' = {} /\ tix' = {} /\ dirty' = {}
           /\ acct' = [a \in Accts |-> [dbal |-> 0, to |-> {}]] /\ pend' = {} /\ blobs' = {{}}
           /\ vj' = <<>> /\ aj' = <<>> /\ revs' = <<>> /\ nextId' = 0 /\ failed' = FALSE /\ hist' = <<>>
+          /\ hasOth' = FALSE
+          /\ oth' = [vo |-> vo', stat |-> stat', index |-> index', tix |-> tix', dirty |-> dirty', acct |-> acct', pend |-> pend',
+                     vj |-> vj', aj |-> aj', revs |-> revs']
 
 Act(e) == LET a == e.args IN
    CASE e.ev = "Create"     -> Create(a.v, a.d)
@@ -54,6 +60,7 @@ Act(e) == LET a == e.args IN
      [] e.ev = "Root"       -> Root
      [] e.ev = "Commit"     -> Commit
      [] e.ev = "Reload"     -> Reload
+     [] e.ev = "Swap"       -> Swap
      [] e.ev = "Copy"       -> CopyStep
      [] OTHER -> FALSE
 
